@@ -381,6 +381,21 @@ def renamed_function_scripts(rng, tier):
                 if fn in ("new", "birth", "myFunc"):
                     body.append(["call", fn] + [list(a) for a in args])
                 hs.append(body)
+    # names NEAR the special ones: every substring of length >= 1 (as far as it is an identifier), the name with a letter appended /
+    # prepended, and a case variant — none of them is special, all must be emitted as ordinary calls `name(args)`
+    # (seeded change C04-m9: `nm in ('return')` is a substring test)
+    near = set()
+    for sp in ("return", "new", "birth", "go", "cast", "continue", "me", "put", "sound"):
+        for a in range(len(sp)):
+            for b in range(a + 1, len(sp) + 1):
+                near.add(sp[a:b])
+        near |= {sp + "s", "x" + sp, sp.capitalize() + "X"}
+    near -= {"return", "new", "birth", "go", "cast", "continue", "me", "put", "sound", "t", "e"}    # `t`, `e`: too short to be told from a variable in this check
+    near = sorted(n for n in near if n[0].isalpha() and n not in L.JS_RESERVED_IDS and n not in L.JS_STRICT_RESERVED_IDS)
+    if tier == "quick":
+        near = [n for n in near if len(n) <= 4 or n.endswith("s") or n.startswith("x")]
+    for nm in near:
+        hs.append([["call", nm], ["call", nm, ["i", 5]], ["set", ["l", "x"], ["c", nm, ["i", 1], ["l", "x"]]]])
     for i in range(0, len(hs), 8):
         out.append(dict(tree=["script", ["factory", "-"], ["props"], ["globals"]] +
                         [["on", "h%d" % j, ["v"]] + b for j, b in enumerate(hs[i:i + 8])], pre=[], kind="renamed-functions"))
@@ -465,6 +480,7 @@ def cases(rng, tier):
     scripts += tell_scripts(rng, dict(quick=150, thorough=3000, search=1500)[tier])
     scripts += shared_node_scripts(rng, dict(quick=120, thorough=2500, search=1200)[tier])
     scripts += renamed_function_scripts(rng, tier)
+    scripts += [dict(tree=x["tree"], pre=[], kind="condition-forms") for x in c03.condition_form_scripts(tier, with_starts=True)]
     scripts += L.border_scripts(rng, tier)
     for sc in scripts:
         t = sc["tree"]
